@@ -176,7 +176,7 @@ def rule_default(E, R):
     hs, hg = E.hir(fs), E.hir(fg)
     if hs:
         asg = list(exprs(hs["body"], "Assign"))
-        ok = len(asg) == 1 and strip(asg[0]["l"]).get("name") == "max_nesting_depth" and local_name(asg[0]["r"]) == "max_nesting_depth"
+        ok = len(asg) == 1 and strip(asg[0]["l"]).get("name") == "max_nesting_depth" and is_param(asg[0]["r"], hs, 1)
         R.check(ok, rule, fs, "setter writes the field the limit test reads", where=hs["span"])
     else:
         R.cannot(rule, fs, "anchor not found")
